@@ -17,7 +17,8 @@ impl Dec {
         (dst, src): (RegisterOperand, RegisterOperand),
         context: &mut Context,
     ) -> JsResult<()> {
-        let value = context.vm.take_register(src.into());
+        // Not `take_register`: if `ToNumeric` throws, the source must keep its value.
+        let value = context.vm.get_register(src.into()).clone();
 
         let (numeric, value) = match value.variant() {
             JsVariant::Integer32(number) if number > i32::MIN => {
